@@ -495,9 +495,11 @@ func genC08(rng *core.Rand, env *core.Env, run int) *Scenario {
 // ---- C14 ------------------------------------------------------------------------------
 
 type c14Gen struct {
-	r     *core.Rand
-	feats map[string]bool
-	seq   int
+	r          *core.Rand
+	feats      map[string]bool
+	seq        int
+	pendingPub string // channel a SUBSCRIBE was just generated for
+	pendingHow int
 }
 
 // word produces an argument payload carrying (some of) the run's features.
@@ -549,13 +551,74 @@ func (g *c14Gen) key(prefix string) string {
 
 func (g *c14Gen) name(n string) string {
 	if g.feats["case"] && g.r.Bool(0.3) {
-		return strings.ToUpper(n)
+		return spell(g.r, n, 1+g.r.Intn(4))
 	}
 	return n
 }
 
+// spell writes a command name in one of the letter cases a client may use:
+// 0 lower, 1 UPPER, 2 Capitalised, 3 aLtErNaTiNg, 4 random per letter.
+func spell(r *core.Rand, n string, how int) string {
+	b := []byte(strings.ToLower(n))
+	up := func(i int) {
+		if b[i] >= 'a' && b[i] <= 'z' {
+			b[i] -= 'a' - 'A'
+		}
+	}
+	switch how {
+	case 1:
+		return strings.ToUpper(n)
+	case 2:
+		up(0)
+	case 3:
+		for i := 1; i < len(b); i += 2 {
+			up(i)
+		}
+	case 4:
+		for i := range b {
+			if r.Bool(0.5) {
+				up(i)
+			}
+		}
+	}
+	return string(b)
+}
+
+// pubsub: with the feature "filtered" the program carries the commands the
+// cluster filter refuses, PUBLISH and SUBSCRIBE, in every letter case, on a
+// small channel set, and in particular SUBSCRIBE followed by a PUBLISH on the
+// same channel (what a replica would do with them if they ever got through).
+func (g *c14Gen) pubsub() []B {
+	r := g.r
+	ch := func() string { return "ch" + itoa(r.Intn(2)) }
+	if g.pendingPub != "" {
+		c := g.pendingPub
+		g.pendingPub = ""
+		how := g.pendingHow // mostly the spelling style of the SUBSCRIBE before it
+		if r.Bool(0.3) {
+			how = r.Intn(5)
+		}
+		return bs(spell(r, "publish", how), c, g.word())
+	}
+	if r.Bool(0.6) {
+		g.pendingHow = r.Intn(5)
+		a := bs(spell(r, "subscribe", g.pendingHow), ch())
+		if r.Bool(0.25) {
+			a = append(a, B(ch()))
+		}
+		if r.Bool(0.75) {
+			g.pendingPub = string(a[1])
+		}
+		return a
+	}
+	return bs(spell(r, "publish", r.Intn(5)), ch(), g.word())
+}
+
 func (g *c14Gen) cmd() []B {
 	r := g.r
+	if g.feats["filtered"] && (g.pendingPub != "" || r.Bool(0.2)) {
+		return g.pubsub()
+	}
 	w := g.word
 	n := g.name
 	switch r.Intn(40) {
@@ -626,9 +689,6 @@ func (g *c14Gen) cmd() []B {
 	case 38:
 		return bs(n("xadd"), g.key("x"), fmt.Sprintf("%d-1", 1+g.seq), w(), w())
 	case 39:
-		if g.feats["filtered"] {
-			return bs(n("publish"), "ch", w())
-		}
 		return bs(n("ping"))
 	}
 	return bs("ping")
@@ -657,7 +717,18 @@ func genC14(rng *core.Rand, env *core.Env, run int) *Scenario {
 	// swarm over argument features; a third of the runs is plain
 	type feat struct{ name, class string }
 	all := []feat{{"space", "arg-with-space"}, {"empty", "empty-arg"}, {"crlf", "arg-with-crlf"}, {"nonutf8", "non-utf8-arg"}, {"case", "mixed-case"}, {"filtered", "filtered-command"}}
-	if !r.Bool(0.3) {
+	// a run that aims at listed classes takes one of them more often than not
+	var listed []feat
+	if isAimRun(run) {
+		for _, f := range all {
+			if knownClass(env, f.class) {
+				listed = append(listed, f)
+			}
+		}
+	}
+	if len(listed) > 0 && r.Bool(0.6) {
+		g.feats[pick(r, listed).name] = true
+	} else if !r.Bool(0.3) {
 		nf := 1
 		if r.Bool(0.15) {
 			nf = 2
